@@ -18,6 +18,47 @@ pub fn machinery(msg: &str) -> ! {
 }
 
 /* ------------------------------------------------------------------------------------ */
+/* Panics: a panic raised inside the crate under test is a verdict, anything else is a   */
+/* machinery error                                                                       */
+/* ------------------------------------------------------------------------------------ */
+
+thread_local! {
+    static LAST_PANIC: std::cell::RefCell<Option<(String, String)>> = const { std::cell::RefCell::new(None) };
+    static QUIET_PANICS: std::cell::Cell<bool> = const { std::cell::Cell::new(false) };
+}
+
+pub fn install_panic_hook() {
+    let default = std::panic::take_hook();
+    std::panic::set_hook(Box::new(move |info| {
+        let loc = info.location().map(|l| format!("{}:{}", l.file(), l.line())).unwrap_or_default();
+        let msg = info.payload().downcast_ref::<&str>().map(|s| s.to_string()).or_else(|| info.payload().downcast_ref::<String>().cloned()).unwrap_or_default();
+        LAST_PANIC.with(|p| *p.borrow_mut() = Some((loc, msg)));
+        if !QUIET_PANICS.with(|q| q.get()) {
+            default(info);
+        }
+    }));
+}
+
+/// Runs `f`; a panic whose location lies in the crate under test becomes `Err((location, message))`,
+/// any other panic is a machinery error.
+pub fn catch_subject_panic<R>(f: impl FnOnce() -> R) -> Result<R, (String, String)> {
+    QUIET_PANICS.with(|q| q.set(true));
+    let r = std::panic::catch_unwind(std::panic::AssertUnwindSafe(f));
+    QUIET_PANICS.with(|q| q.set(false));
+    match r {
+        Ok(v) => Ok(v),
+        Err(_) => {
+            let (loc, msg) = LAST_PANIC.with(|p| p.borrow_mut().take()).unwrap_or_default();
+            if loc.starts_with("/repo/") || loc.starts_with("src/") && !loc.contains("harness") {
+                Err((loc, msg))
+            } else {
+                machinery(&format!("harness panic at {loc}: {msg}"))
+            }
+        }
+    }
+}
+
+/* ------------------------------------------------------------------------------------ */
 /* Deterministic hashing                                                                 */
 /* ------------------------------------------------------------------------------------ */
 
@@ -383,13 +424,30 @@ where
     }];
     let mut depth = 0usize;
     let mut sampled = 0usize;
+    let mut violation_seen = false;
     while !frontier.is_empty() {
         if crate::clock::wall() - start > limits.wall_s {
             stats.exhaustive = false;
             stats.cap = Some(format!("wall {}s at depth {}", limits.wall_s, depth));
             break;
         }
-        let outs = par_map(&frontier, |n| run(&n.hist));
+        let outs = par_map(&frontier, |n| match catch_subject_panic(|| run(&n.hist)) {
+            Ok(o) => o,
+            Err((loc, msg)) => Outcome {
+                fp: fp_str(&format!("panic {loc} {:?}", n.hist)),
+                enabled: vec![],
+                obs_chain: n.parent_chain.clone(),
+                violation: Some(Violation {
+                    clause: "the implementation never panics".into(),
+                    key: format!("panic:{loc}"),
+                    detail: format!("panic at {loc}: {msg} [history {:?}]", n.hist),
+                    replay: json!({"history": format!("{:?}", n.hist)}),
+                }),
+                counters: BTreeMap::new(),
+                terminal: None,
+                steps: 0,
+            },
+        });
         let mut next = vec![];
         for (node, out) in frontier.into_iter().zip(outs.into_iter()) {
             stats.executions += 1;
@@ -404,6 +462,7 @@ where
             }
             if let Some(v) = out.violation.clone() {
                 on_violation(v, &node.hist);
+                violation_seen = true;
             }
             if let Some(t) = &out.terminal {
                 terminals.insert(t.clone());
@@ -452,6 +511,12 @@ where
                     parent_chain: out.obs_chain.clone(),
                 });
             }
+        }
+        if violation_seen {
+            // the shortest counterexamples are in hand; deeper levels add nothing to the verdict
+            stats.exhaustive = false;
+            stats.cap = Some(format!("stopped after the first violating level (depth {depth})"));
+            break;
         }
         if stats.states > limits.max_states {
             stats.exhaustive = false;
